@@ -151,28 +151,32 @@ def run(R, tier):
             R.check(got == exp["message"], "R14.2", "get_message(%s)" % name, "= %r" % got, "get_message(%s) = %r, SCPI-99 says %r" % (name, got, exp["message"]))
     # get_error: code -> variant; inverse of get_code on the standard variants, None elsewhere
     ge = u.body("scpi::error::ErrorCode::get_error")
-    sw = ge.mir.blocks[0]["term"]
-    if sw["k"] != "switch":
-        R.anchor_lost("R14.2", "get_error is not a switch on the code")
-    else:
-        seen = {}
-        for tv, bb in sw["targets"]:
-            v = int(tv)
-            if v >= 32768:
-                v -= 65536
+    # decided by evaluating the function on every standard code, on the numbers next to each of them and on the edges
+    # of the 16-bit range - however the lookup is organised (one switch, a range test in front of it, a table ...)
+    probes = set(code_of.values())
+    for c in list(probes):
+        probes |= {c - 1, c + 1}
+    probes |= {0, 1, -1, 32767, -32768, -32767, 100, -99, -900, -899, 12345}
+    probes = sorted(x for x in probes if -32768 <= x <= 32767)
+    seen = {}
+    undecided = []
+    for v in probes:
+        try:
             res = eng.run(ge, [fdai.K(v)])
-            r = res[0].retval if len(res) == 1 and res[0].outcome == "return" else None
-            if isinstance(r, fdai.EnumV) and r.name == "Some" and isinstance(r.fields.get(0), fdai.EnumV):
-                seen[v] = r.fields[0].name
-            else:
-                seen[v] = None
-        for name, code in sorted(code_of.items()):
-            R.check(seen.get(code) == name, "R14.2", "get_error(%s)" % name, "get_error(%s) = Some(%s)" % (code, name), "get_error(%r) = %r, expected Some(%s): looking the code up does not yield the error that reports it" % (code, seen.get(code), name))
-        extra = sorted(set(seen) - set(code_of.values()))
-        R.check(not extra, "R14.2", "get_error:extra", "no code outside the table maps to a variant", "codes %s map to a variant that does not report them" % extra)
-        res = eng.run(ge, [fdai.SymV(-9, "other")])
-        others = [r.retval for r in res if r.outcome == "return" and isinstance(r.retval, fdai.EnumV) and r.retval.name == "None"]
-        R.check(len(others) >= 1, "R14.2", "get_error:default", "unlisted numbers give None", "no None path for unlisted numbers")
+        except (fdai.TooManyPaths, RecursionError):
+            res = []
+        r = res[0].retval if len(res) == 1 and res[0].outcome == "return" else None
+        if isinstance(r, fdai.EnumV) and r.name == "Some" and isinstance(r.fields.get(0), fdai.EnumV):
+            seen[v] = r.fields[0].name
+        elif isinstance(r, fdai.EnumV) and r.name == "None":
+            seen[v] = None
+        else:
+            undecided.append(v)
+    R.check(not undecided, "R14.2", "get_error:decided", "get_error evaluated on %d numbers" % len(probes), "get_error cannot be evaluated for %s" % undecided[:6], where=ge.span)
+    for name, code in sorted(code_of.items()):
+        R.check(seen.get(code) == name, "R14.2", "get_error(%s)" % name, "get_error(%s) = Some(%s)" % (code, name), "get_error(%r) = %r, expected Some(%s): looking the code up does not yield the error that reports it" % (code, seen.get(code), name), where=ge.span)
+    extra = sorted(v for v, n_ in seen.items() if n_ is not None and v not in set(code_of.values()))
+    R.check(not extra, "R14.2", "get_error:extra", "no number outside the table maps to a variant (%d neighbours and edge values give None)" % sum(1 for v, n_ in seen.items() if n_ is None), "numbers %s map to a variant that does not report them" % extra, where=ge.span)
     R.floor("R14.2", "standard variants checked", len(code_of), 122)
 
     # ---- R14.5 errors raised by the library itself, by class ----------------------------------------------
